@@ -12,6 +12,12 @@ R-C03c  initializer ownership: `.initializers` of a builder / graph is written o
         aware entry points (or under a function-mode test); optimizer passes: C02 R-C02e
 R-C03d  function attach: every ir.Function collected in ctx.ir_functions is stored into the model and every
         non-default domain gets an opset import, both at attach time and in FunctionScope.to_ir_function
+R-C03e  output layout agreement: where a multi-output node's outputs are declared through a locally
+        assembled name list (`output_names=names`, built by append / extend sections) and the returned tuple
+        is then cut into slices that are stamped with types, every slice must coincide with whole sections of
+        that list (its bounds equal consecutive symbolic prefix sums) and be zipped with the collection its
+        section was generated from.  A slice that is off by the optional leading section stamps the
+        types of one group of outputs onto another: the declared type then contradicts the body graph
 """
 from __future__ import annotations
 
@@ -158,7 +164,104 @@ def _single_shot(site: ast.AST, fi: Optional[FuncInfo]) -> Optional[str]:
     return None
 
 
+def rule_e(res: Results, idx: Index) -> None:
+    from ..layout import lin_of, list_layout, locate_slice, prefix_sums, show
+    n_sites = 0
+    n_slices = 0
+    for m in idx.product_modules():
+        if "/plugins/" not in m.rel:
+            continue
+        for fi in m.funcs.values():
+            du = None
+            for c in walk_no_nested(fi.node):
+                if not isinstance(c, ast.Call):
+                    continue
+                kw = next((k for k in c.keywords if k.arg in ("output_names", "_outputs") and isinstance(k.value, ast.Name)), None)
+                if kw is None:
+                    continue
+                st = enclosing_stmt(c)
+                if not (isinstance(st, ast.Assign) and len(st.targets) == 1 and isinstance(st.targets[0], ast.Name) and st.value is c):
+                    continue
+                du = du or defuse(fi.node)
+                secs = list_layout(fi.node, du, kw.value.id)
+                if secs is None or len(secs) < 2:
+                    continue
+                rname = st.targets[0].id
+                slices = [x for x in walk_no_nested(fi.node) if isinstance(x, ast.Subscript) and isinstance(x.value, ast.Name) and x.value.id == rname and isinstance(x.slice, ast.Slice) and x.slice.step is None and x.lineno > c.lineno]
+                if not slices:
+                    continue
+                n_sites += 1
+                ps = prefix_sums(secs)
+                for sl in slices:
+                    n_slices += 1
+                    lo = lin_of(sl.slice.lower, du)
+                    hi = lin_of(sl.slice.upper, du) if sl.slice.upper is not None else ps[-1]
+                    key = f"{m.rel}::{fi.qualname}::{rname}[{src(sl.slice.lower) if sl.slice.lower is not None else ''}:{src(sl.slice.upper) if sl.slice.upper is not None else ''}]"
+                    site = f"{m.rel}:{sl.lineno}"
+                    if lo is None or hi is None:
+                        res.unresolved("R-C03e", site, key, "slice bounds are not linear in section lengths", fi.qualname)
+                        continue
+                    loc = locate_slice(secs, lo, hi)
+                    if loc is None:
+                        res.violation("R-C03e", site, key, f"slice [{show(lo)} : {show(hi)}] of `{rname}` does not coincide with sections of `{kw.value.id}` (section boundaries: {', '.join(show(p) for p in ps)}): the values stamped from it belong to a different group of the node's outputs", fi.qualname)
+                        continue
+                    a, b = loc
+                    covered = [x for x in secs[a:b] if x.length]
+                    # the collection the slice is paired with
+                    tgt = None
+                    pst = enclosing_stmt(sl)
+                    if isinstance(pst, ast.Assign) and len(pst.targets) == 1 and isinstance(pst.targets[0], ast.Name) and pst.value is sl:
+                        tgt = pst.targets[0].id
+                    partners = []
+                    for z in walk_no_nested(fi.node):
+                        if isinstance(z, ast.Call) and (call_name(z) or "") == "zip" and len(z.args) == 2:
+                            for i in (0, 1):
+                                if (isinstance(z.args[i], ast.Name) and z.args[i].id == tgt) or z.args[i] is sl:
+                                    d = dotted(z.args[1 - i])
+                                    if d:
+                                        partners.append(d)
+                    srcs = [x.source for x in covered]
+                    bad = [p_ for p_ in partners if srcs and (len(srcs) != 1 or (not srcs[0].startswith("<") and p_ != srcs[0]))]
+                    if bad:
+                        res.violation("R-C03e", site, key, f"the slice covers the outputs declared for {srcs} but is zipped item by item with `{bad[0]}`", fi.qualname)
+                    else:
+                        res.ok("R-C03e", site, key, f"covers section(s) {srcs}" + (f", zipped with {sorted(set(partners))}" if partners else ""), fi.qualname)
+    res.analysed["sliced_output_layout_sites"] = n_sites
+    res.analysed["output_slices"] = n_slices
+    # positive control
+    import textwrap
+    from ..index import Module as Mod
+    from ..flow import DefUse
+    cm = Mod("<control>", "<control>", "control_c03e", textwrap.dedent("""
+        def lower(ctx, flag, a, b):
+            names = []
+            if flag:
+                names.append(ctx.fresh_name("p"))
+            names.extend(ctx.fresh_name("a") for _ in a)
+            names.extend(ctx.fresh_name("b") for _ in b)
+            outs = loop(ctx, output_names=names)
+            off = int(flag)
+            good = outs[off : off + len(a)]
+            bad = outs[: len(a)]
+            rest = outs[off + len(a) :]
+    """))
+    f = cm.funcs["lower"]
+    du = DefUse(f.node)
+    secs = list_layout(f.node, du, "names")
+    got = []
+    if secs:
+        ps = prefix_sums(secs)
+        for x in ast.walk(f.node):
+            if isinstance(x, ast.Subscript) and isinstance(x.slice, ast.Slice):
+                lo = lin_of(x.slice.lower, du)
+                hi = lin_of(x.slice.upper, du) if x.slice.upper is not None else ps[-1]
+                got.append(locate_slice(secs, lo, hi))
+    res.control("R-C03e", "slices aligned with the flag-dependent leading section are located, the one ignoring it is not", got == [(1, 2), None, (2, 3)], str(got))
+
+
 def run(res: Results, idx: Index, tier: str) -> None:
+    res.rule("R-C03e", "slices of a multi-output node's results coincide with the sections of its declared output-name list", floor=3)
+    rule_e(res, idx)
     res.rule("R-C03a", "value names are fresh / existing / derived / interface; a literal name must be single-shot per scope", floor=1500)
     res.rule("R-C03b", "contexts are created by the scope constructors only; nested scopes prefix both name allocators", floor=3)
     res.rule("R-C03c", "initializer lists are written only through the function-mode aware entry points", floor=3)
